@@ -46,4 +46,15 @@ CHECKS["C22"] = dict(
     design_ref="DESIGN.md §4 C22",
 )
 
+CHECKS["C25"] = dict(
+    category="other",
+    technique="path-exhaustive symbolic execution of the real cache code (forksym: z3 String dialect/SQL, symbolic frame cells) with the pandas-hash/SHA-256 boundary stubbed as an injective label-blind function",
+    text="store/store/get histories over symbolic dialect names, SQL texts and frame contents, with enumerated table names, column lists "
+         "(incl. permuted labels) and shapes: z3 decides per path that a hit implies an equal key, that the value returned equals the last "
+         "result stored under it, that store and get copy, and that dirty tracks changes. Counterexamples replay on real pandas + hashlib.",
+    note="PARTIAL: content-sensitivity/collision-freedom of pandas.util.hash_pandas_object + SHA-256 is an assumption (C boundary), dtype "
+         "differences are not modelled, only the 'hit => equal key' direction is asserted, histories are 2 stores + 2 lookups.",
+    design_ref="DESIGN.md §4 C25",
+)
+
 NOT_YET = {}
